@@ -40,11 +40,18 @@ func (s *SecureChannel) VerifAddInstance(channelID, tokenID uint32, localNonce, 
 }
 
 // VerifSetOpening installs (or removes) the opening instance readChunk uses
-// for OPN chunks.
+// for OPN chunks: a separate instance that starts with the algorithm of the
+// active instance (on a server channel the opening instance carries the
+// algorithm of the last handshake).
 func (s *SecureChannel) VerifSetOpening(on bool) {
-	if on {
-		s.openingInstance = newChannelInstance(s)
-	} else {
+	if !on {
 		s.openingInstance = nil
+		return
 	}
+	inst := newChannelInstance(s)
+	if s.activeInstance != nil {
+		inst.algo = s.activeInstance.algo
+		inst.secureChannelID = s.activeInstance.secureChannelID
+	}
+	s.openingInstance = inst
 }
